@@ -89,6 +89,7 @@ type Exchange struct {
 	Serve         func(x *Exchange, req *http.Request, reqBody []byte, now time.Time) (body []byte, contentType string)
 	ReadCap       int64 // size cap the library is expected to honour for this kind
 	CancelOnClose bool  // the caller's context is cancelled when the library closes this body
+	Prior         bool  // C15: an earlier exchange of the same slot list belongs to the object's earlier life
 	Rec           XRec
 }
 
@@ -515,5 +516,24 @@ func (b *simBody) Close() error {
 func (n *Net) dropPending() {
 	for _, sl := range n.slots {
 		sl.next = len(sl.xs)
+	}
+}
+
+// dropPendingExcept marks planned but unused attempts as consumed, keeping
+// the given ones available.
+func (n *Net) dropPendingExcept(keep ...*Exchange) {
+	for _, sl := range n.slots {
+		for sl.next < len(sl.xs) {
+			k := false
+			for _, e := range keep {
+				if e != nil && sl.xs[sl.next] == e {
+					k = true
+				}
+			}
+			if k {
+				break
+			}
+			sl.next++
+		}
 	}
 }
